@@ -8,6 +8,7 @@ Open Scope N_scope.
 Definition kt (kd : tkind) (s : string) := Tok kd (u s).
 Definition w_path : objpath := ObjPath (kt KIdent "a") (kt KIdent "b") None.
 Definition w_obs (p : proptest) : pattern := OFbBase (OOrBase (OAndBase (OSimple (COrBase (CAndBase p))))).
+Definition w_obs_and (p q : proptest) : pattern := OFbBase (OOrBase (OAndBase (OSimple (COrBase (CAnd (CAndBase p) q))))).
 
 (* [a:b NOT != 1] *)
 Definition w_not_neq : pattern := w_obs (PTEqual w_path true (kt KNEQ "!=") (kt KIntPos "1")).
@@ -26,7 +27,7 @@ Definition w_exists : pattern := w_obs (PTExists false w_path).
 
 (* "the visitor yields an object with the same meaning" fails on c *)
 Definition loses_meaning (g : cfg) (c : pattern) : Prop :=
-  wf c = true /\ forall a, visit g c = Ok a -> meaning_ast a <> meaning_cst c.
+  wf c = true /\ forall a, visit g c = Ok a -> meaning_ast g a <> meaning_cst c.
 (* the visitor raises on a well-formed tree *)
 Definition crashes (g : cfg) (c : pattern) (e : exn) : Prop := wf c = true /\ visit g c = Raise e.
 
@@ -55,3 +56,36 @@ Proof. split; vm_compute; reflexivity. Qed.
    the list of children, which is not a pattern object *)
 Lemma exists_crashes : forall g, crashes g w_exists Junk.
 Proof. intros g. split; vm_compute; reflexivity. Qed.
+
+(* ---- the defects repaired in the second batch ---- *)
+
+Definition w_lit (t : token) : pattern := w_obs (PTEqual w_path false t_EQ t).
+Definition w_steps (c : opc) : pattern :=
+  w_obs (PTEqual (ObjPath (kt KIdent "a") (kt KIdent "b") (Some c)) false t_EQ (kt KIntPos "1")).
+(* [a:b = 0.00001] *)
+Definition w_float_small : pattern := w_lit (kt KFloatPos "0.00001").
+(* [a:b.'a b' = 1] *)
+Definition w_key_space : pattern := w_steps (OStep (KeyStep (kt KString "'a b'"))).
+(* [a:b = h''] *)
+Definition w_hex_empty : pattern := w_lit (kt KHex "h''").
+(* [a:b.'a-b'[*] = 1] *)
+Definition w_key_star : pattern := w_steps (OPathStep (OStep (KeyStep (kt KString "'a-b'"))) (IndexStep (kt KASTERISK "*"))).
+(* [(x:b = 1 OR y:b = 1 OR a:b = 1) AND a:b = 1] *)
+Definition w_eq1 (ty : string) : proptest := PTEqual (ObjPath (kt KIdent ty) (kt KIdent "b") None) false t_EQ (kt KIntPos "1").
+Definition w_rt_stale : pattern :=
+  w_obs_and (PTParen (COr (COr (COrBase (CAndBase (w_eq1 "x"))) (CAndBase (w_eq1 "y"))) (CAndBase (w_eq1 "a")))) (w_eq1 "a").
+
+(* the visitor succeeds but the printed tokens are not all lexical tokens of the grammar *)
+Definition prints_invalid (g : cfg) (c : pattern) : Prop :=
+  wf c = true /\ exists a, visit g c = Ok a /\ forallb token_ok (print g a) = false.
+
+Lemma float_exponent_invalid : prints_invalid pinned w_float_small.
+Proof. split; [vm_compute; reflexivity|]. eexists. split; vm_compute; reflexivity. Qed.
+Lemma quoted_key_invalid : prints_invalid pinned w_key_space.
+Proof. split; [vm_compute; reflexivity|]. eexists. split; vm_compute; reflexivity. Qed.
+Lemma hex_empty_crashes : crashes pinned w_hex_empty ValueError.
+Proof. split; vm_compute; reflexivity. Qed.
+Lemma key_star_crashes : crashes pinned w_key_star AttributeError.
+Proof. split; vm_compute; reflexivity. Qed.
+Lemma rt_stale_crashes : crashes pinned w_rt_stale ValueError.
+Proof. split; vm_compute; reflexivity. Qed.
